@@ -35,7 +35,7 @@ REQUIRED_COUNTERS = ["resolutions_checked", "undefined_checked", "strict_nameerr
 _st = {}
 
 SITES = ["ctx", "page", "body", "defarg", "encl", "loop", "mod", "nsimport", "builtin"]
-READS = ["body", "def", "defcb", "nested", "anonblock", "namedblock", "callbody", "ctrl", "attr", "filter"]
+READS = ["body", "def", "defcb", "nested", "anonblock", "namedblock", "callbody", "calldef", "ctrl", "attr", "filter"]
 SHOW = (
     "<%!\n"
     "def show(v):\n"
@@ -78,7 +78,7 @@ def expected(sites, read, name):
     if "page" in s:
         body_locals.append("ctx" if "ctx" in s else "page")  # render(x=..) fills the page argument
     order = []
-    if read in ("body", "ctrl", "attr", "callbody", "anonblock", "filter"):
+    if read in ("body", "ctrl", "attr", "callbody", "calldef", "anonblock", "filter"):
         # python locals / closures of the body
         if "loop" in s:
             order.append("loop")
@@ -142,7 +142,7 @@ def build(sites, read, name, layout):
     decoy = DECOYS[layout["decoy"]] % {"n": name} if layout.get("decoy") else ""
     if nl == "\r\n":
         decoy = decoy.replace("\n", "\r\n")
-    if decoy and layout["in"] and read in ("def", "defcb", "nested", "anonblock", "namedblock", "callbody") and layout["decoy"] != "otherdef":
+    if decoy and layout["in"] and read in ("def", "defcb", "nested", "anonblock", "namedblock", "callbody", "calldef") and layout["decoy"] != "otherdef":
         rd = decoy + rd  # inside the construct that holds the read site, just before it
     elif decoy:
         body.append(decoy)
@@ -164,6 +164,9 @@ def build(sites, read, name, layout):
         core = "[${'' | n,mkf(%s)}]" % name
     elif read == "callbody":
         core = '<%%call expr="wrap()">%s</%%call>' % ("[" + rd + "]")
+    elif read == "calldef":
+        # a def written inside a <%call>: a closure of the calling scope, like the call's body
+        core = '<%%call expr="wrapn()"><%%def name="nx()">%s</%%def></%%call>' % ("[" + rd + "]")
     elif read == "anonblock":
         core = "<%%block>%s</%%block>" % maybe("[" + rd + "]", inner_loop)
     elif read == "namedblock":
@@ -182,6 +185,7 @@ def build(sites, read, name, layout):
     defs = []
     defs.append('<%def name="echo(v)">[${v}]</%def>')
     defs.append('<%def name="wrap()">${caller.body()}</%def>')
+    defs.append('<%def name="wrapn()">${caller.nx()}</%def>')
     defs.append("<%!\ndef mkf(v):\n    return lambda s: show(v)\n%>")
     arg = "%s='defarg:%s'" % (name, name) if "defarg" in s else ""
     if read in ("def", "defcb"):
